@@ -80,6 +80,93 @@ CLAIMS["C17"] = dict(
     design_ref="DESIGN.md 5 (C17), B.3", technique=TECH,
     note=TRUST + "; islice(count(0), start, stop, step) = arithmetic progression (library contract, tier A); Slice.run is "
          "itertools.islice itself (library); _run_negative_islice is bounded only")
+BOUNDED_TECH = ("bounded stand-in (run-time evaluation of a reference specification written from the property text on the "
+                "real code over a stated finite scope, exhaustive where marked); contract-based proof obligations for this "
+                "property's functions are listed in the evidence when present and are the only part counted as proved")
+
+
+def bounded_claim(text, ref, note=""):
+    return dict(category="other", text=text, design_ref=ref, technique=BOUNDED_TECH,
+                note="labelled bounded, never counted as proved; trusted: the reference oracle in /verif/bounded, CPython; " + note)
+
+
+CLAIMS["C03"] = bounded_claim(
+    "Bounded: Split.run against the property's schedule reference split_spec (blocks of bufsize; per block in branch order: "
+    "Source once, Sequence per block, fill/request fills + request(), fill/compute fills, LenaStopFill => finalise and drop; "
+    "final compute() pass; empty flow invokes every branch once) exhaustively over branch lists of length 0..3 (thorough 0..4) "
+    "of the four kinds with tagged outputs, LenaStopFill at every fill index, bufsize in {1..L+1, 1000, None}, copy_buf, flows "
+    "0..4; all 25 branch forms of _get_seq_with_type; bufsize independence; empty Split = identity (same objects); common-type "
+    "methods fill/compute/request/__call__; Zip tuples. No proof obligations yet (Split.run is the protocol-sized proof of "
+    "DESIGN 5/C03). One genuine defect repaired (fix: 70b6ae2).", "DESIGN.md 5 (C03), Appendix A")
+CLAIMS["C04"] = dict(
+    category="other",
+    text="Proof part: at every yield of Sum.compute, Mean.compute and Count.compute the yielded context is an object created "
+         "during the call (deep copy), never the stored / filled one (is_fresh clause at the yield; top-level identity - nested "
+         "sharing is not modelled by the encoding). Bounded part (labelled): object-identity graphs (ids of every dict/list "
+         "reachable) of yielded vs filled contexts and earlier yields for 33 accumulator configurations over all histories of "
+         "length <= 4 (thorough <= 6) of fill / compute / mutate-everything-yielded; Split / Zip branches with in-place mutators "
+         "driven by run, fill and request against the branch alone on a private copy. Two genuine defects repaired (fix: "
+         "c178926, 92c6a51).",
+    design_ref="DESIGN.md 5 (C04)", technique=TECH,
+    note=TRUST + "; copy.deepcopy is a library contract (tier A); branches mutate only what they reach (interface assumption)")
+CLAIMS["C05"] = dict(
+    category="other",
+    text="Proof part (loop-free, complete over the abstract predicate space callable(el) / callable_m(el, name) / has_attr): "
+         "Run, Call, SourceEl, FillCompute and FillInto accept exactly the documented kinds, bind exactly the named method "
+         "(function identity) in the documented priority and raise LenaTypeError at construction otherwise; Call.__call__, "
+         "FillInto.fill_into and FillInto._run_fill_into delegate as documented (fold of el_fill over el_run([value])); "
+         "Slice.fill_into (C17 contract). Bounded part (labelled): the three drivers Sequence.run / Split branch with every "
+         "bufsize / FillComputeSeq-FillSeq fill-until-LenaStopFill-then-compute on all chains pre* acc post* with <= 2 pre "
+         "elements (thorough <= 3) over 14..33 pre kinds, 6..15 accumulators, flows 0..5, against a list-level reference.",
+    design_ref="DESIGN.md 5 (C05), B.2", technique=TECH, note=TRUST + "; element interface assumption (DESIGN 2.4 item 4)")
+CLAIMS["C10"] = dict(
+    category="other",
+    text="Proof part: RunIf.run - at every yield on a path where the selector is false the yielded value is the loop variable "
+         "itself (identity), and exactly the values consumed so far have been pulled. Bounded part (labelled): for 25 "
+         "configurations of the ten selective elements, run(interleave(A, B)) == interleave(run(A), B) with every unselected b "
+         "passed by `is`, in order and position, unmodified, no file-system effect and no converter launch (recording stubs), "
+         "over all 69 interleavings of <= 3 selected with <= 3 unselected values of 21+ kinds. One genuine defect repaired "
+         "(fix: 46615dc).",
+    design_ref="DESIGN.md 5 (C10)", technique=TECH, note=TRUST + "; converters are stubs; only the working directory is snapshotted")
+CLAIMS["C12"] = bounded_claim(
+    "Bounded: histogram.scale / integral / add / get_nevents / set_nevents, graph.scale over every valid error-field naming "
+    "(2212 namings), hist_to_graph (all get_coordinate modes), iter_bins / iter_bins_with_edges / iter_cells agreement incl. "
+    "all index ranges, hist1d_to_csv / hist2d_to_csv / ToCSV parse-back, scale_to / ScaleTo, exhaustively over all shapes of "
+    "dims 1-3 with 1..3 bins per axis (thorough 1..4) against exact Fraction arithmetic. Proof obligations: the C06 bin-search "
+    "contract get_bin_on_value_1d that iter_cells' coordinate ranges rest on. One genuine defect repaired (fix: bc48c8e).",
+    "DESIGN.md 5 (C12)")
+CLAIMS["C15"] = dict(
+    category="other",
+    text="Proof part: contains(d, s) (the string leaf of a selector) against the key-path walk reference, no exception for "
+         "dictionaries. Bounded part (labelled): Selector / And / Or / Not / SelectContext / Filter against the three-valued "
+         "reference evaluator over all specifications of nesting <= 2 (and sampled nesting 3) on both raise_on_error flags; "
+         "GroupBy against the longest-listed-prefix partition for every group_by / merge labelling of <= 2 (thorough <= 4) of "
+         "the 14 key paths over {a,b}, 361 contexts each. Two genuine defects repaired (fix: d3e7985, be31c5e).",
+    design_ref="DESIGN.md 5 (C15)", technique=TECH, note=TRUST)
+CLAIMS["C18"] = bounded_claim(
+    "Bounded: a per-file state machine written from the property text (after an interrupted fill: nothing stored / previous "
+    "complete flow / complete new flow, never a strict prefix) against real Cache runs on a temp directory: all histories of "
+    "length <= 3 (thorough <= 4) over {run, again, recompute, drop} in 17 forms (Sequence, Source, alter_sequence, Split), "
+    "every crash point (consumer stops after k, upstream / downstream raises at k), one and two caches, instrumented upstream "
+    "pull counts. No proof obligations yet (ghost file system of DESIGN 5/C18). One genuine defect repaired (fix: 62835fd).",
+    "DESIGN.md 5 (C18)")
+CLAIMS["C19"] = bounded_claim(
+    "Bounded: the real pipeline ToCSV, MakeFilename, Write, RenderLaTeX, Write, LaTeXToPDF, PDFToPNG (and the group variant) on "
+    "a temp directory with recording stub converters: all histories of 1..2 runs (thorough 1..3) where each run keeps/changes "
+    "data, keeps/changes the template and deletes any subset of {csv, tex, pdf, png}; decision tables of Write.run, "
+    "LaTeXToPDF.run, PDFToPNG.run, MakeFilename (7670 argument/context combinations), group_plots / MapGroup flag "
+    "combination. No proof obligations yet. One genuine defect repaired (fix: 63aa3e2), one recorded as an open known finding "
+    "(Write leaves output.changed unset when it creates a missing file: the repair contradicts an existing test).",
+    "DESIGN.md 5 (C19)")
+CLAIMS["C16"] = bounded_claim(
+    "Bounded: FillRequest.run against the block reference blocks_spec for run / fill-compute / fill-request elements, bufsize "
+    "1..5, buffer_input / buffer_output, reset, yield_on_remainder, flows 0..11 (thorough 0..16); fill()/request() under ALL "
+    "request schedules (request or not after each of 0..L fills, L <= 6, thorough <= 10) with a deterministic step watchdog "
+    "for hangs, single accounting of every value and the one-block buffer bound; Split around a FillRequest branch for block "
+    "sizes dividing and not dividing; FillRequestSeq wiring. Three genuine defects are open known findings identified by "
+    "region (buffer_output fill past a full block hangs; buffer_input results after a misaligned request; run element that "
+    "does not exhaust its block): every configuration that works today has its own failure ids, so a regression there is "
+    "still reported. No proof obligations yet.", "DESIGN.md 5 (C16)")
 NA_REASON = "check not built yet (work in progress; see DESIGN.md section 8)"
 
 def main():
